@@ -38,36 +38,32 @@ def build_corpus(cases, workdir, flavour='asan', opts=(), defines=(), per_module
     mods = typegen.pack(cases, per_module, prefix)
     batches, failures = [], []
 
+    counter = [0]
+
+    def build_rec(cs, tag):
+        """build one module for cs; on failure split in halves (a single bad type costs ~2*log2(n) extra builds)"""
+        sub = typegen.pack(cs, len(cs), prefix)
+        m1, c1 = sub[0]
+        wdir = os.path.join(workdir, 'b%s' % tag)
+        try:
+            return [_build_one(m1, c1, wdir, flavour, opts, defines, drv)], []
+        except build.BuildError as e:
+            shutil.rmtree(wdir, ignore_errors=True)
+            if len(cs) == 1:
+                return [], [(cs[0], str(e)[:1500], A.module_text(m1))]
+            h = len(cs) // 2
+            b1, f1 = build_rec(cs[:h], tag + 'a')
+            b2, f2 = build_rec(cs[h:], tag + 'b')
+            return b1 + b2, f1 + f2
+
     def work(i_mc):
         i, (mod, cs) = i_mc
-        wdir = os.path.join(workdir, 'b%d' % i)
-        try:
-            return [_build_one(mod, cs, wdir, flavour, opts, defines, drv)], []
-        except build.BuildError as e:
-            # bisect to single-type modules so that one bad type does not hide its neighbours
-            shutil.rmtree(wdir, ignore_errors=True)
-            bs, fs = [], []
-            for j, c in enumerate(cs):
-                sub = typegen.pack([c], 1, prefix)
-                # keep the original name
-                m1, c1 = sub[0]
-                name = mod_name_fix(m1, c, cs[j].name if False else None)
-                w2 = os.path.join(workdir, 'b%d_%d' % (i, j))
-                try:
-                    bs.append(_build_one(m1, c1, w2, flavour, opts, defines, drv))
-                except build.BuildError as e2:
-                    shutil.rmtree(w2, ignore_errors=True)
-                    fs.append((c, str(e2)[:1500], A.module_text(m1)))
-            return bs, fs
+        return build_rec(cs, str(i))
     with ThreadPoolExecutor(4) as ex:
         for bs, fs in ex.map(work, list(enumerate(mods))):
             batches += bs
             failures += fs
     return batches, failures
-
-
-def mod_name_fix(m1, c, _):
-    return c.name
 
 
 def case_values(batch, case, two=False, big=False):
@@ -101,3 +97,25 @@ def _big_container(mod, t):
     else:
         out = values.container_values(mod, t)
     return out
+
+
+# ---------------------------------------------------------------- per-batch parallel map (fork)
+_BATCHES = None
+_FN = None
+
+
+def _call(i):
+    return _FN(_BATCHES[i])
+
+
+def map_batches(fn, batches, procs=None):
+    """run fn(batch) in forked worker processes (one task per batch); returns results in order"""
+    import multiprocessing as mp
+    global _BATCHES, _FN
+    _BATCHES, _FN = batches, fn
+    procs = procs or build.JOBS
+    if len(batches) <= 1 or procs <= 1:
+        return [fn(b) for b in batches]
+    ctx = mp.get_context('fork')
+    with ctx.Pool(min(procs, len(batches))) as pool:
+        return pool.map(_call, range(len(batches)), chunksize=1)
